@@ -611,7 +611,8 @@ class Interp:
                 return self.eval(r, Env(), obj.module)
             raise Unsupported(f"class attribute {obj.name}.{attr}")
         if isinstance(obj, (tuple, list, dict, str, set, frozenset)):
-            if attr in _SAFE_METHODS.get(type(obj).__name__, ()):
+            tn = next((n for n in ("tuple", "list", "dict", "str", "set", "frozenset") if isinstance(obj, __builtins__[n] if isinstance(__builtins__, dict) else getattr(__builtins__, n))), type(obj).__name__)
+            if attr in _SAFE_METHODS.get(tn, ()):
                 return getattr(obj, attr)
         if isinstance(obj, Fraction) and attr in ("real", "imag", "conjugate", "numerator", "denominator"):
             return getattr(obj, attr)
@@ -882,7 +883,7 @@ class Interp:
                 # structural comparison of UFL values: decidable only when identical objects
                 if a is b:
                     return op is ast.Eq
-            if op in (ast.In, ast.NotIn) and isinstance(b, (tuple, list)):
+            if op in (ast.In, ast.NotIn) and isinstance(b, (tuple, list, set, frozenset, dict)):
                 return any(x is a for x in b) == (op is ast.In)
             raise Unsupported(f"comparison on symbolic values: {norm(node)}")
         if isinstance(a, list) and isinstance(b, tuple) and op in (ast.Eq, ast.NotEq):
@@ -1199,6 +1200,5 @@ DEFAULT_OVERRIDES = {
     "sqrt": lambda x: uflsem.t_fn("sqrt", x) if isinstance(x, (T, sym.Ex)) else uflsem.t_fn("sqrt", uflsem.as_T(x)),
     "Sqrt": lambda x: uflsem.t_fn("sqrt", x),
     "zero": lambda *shape: T.zero(tuple(shape[0]) if shape and isinstance(shape[0], (tuple, list)) else tuple(shape)),
-    "Identity": uflsem.identity,
     "product": lambda seq: __import__("functools").reduce(operator.mul, list(seq), 1),
 }
